@@ -39,6 +39,11 @@ pub fn gen_base(rng: &mut Rng) -> Scenario {
         sc.joins = wl::random_joins(rng, &sc.handlers);
     }
     sc.closure_sink = rng.chance(1, 5);
+    if rng.chance(1, 4) {
+        // tuning knobs (hook): tiny text decoder buffer / no fast path => more, smaller text chunks
+        sc.text_buf = rng.pick(&[8usize, 13, 16, 31, 64]);
+        sc.no_fast_text = rng.chance(1, 3);
+    }
     sc.prealloc = rng.pick(&[0usize, 0, 16, 1024]);
     let kind = rng.pick(wl::SCHED_KINDS);
     sc.cuts = wl::schedule(rng, &sc.doc, kind);
